@@ -109,7 +109,7 @@ func refParse(s []byte, nparts int) (parts []string, consumed int, ok bool) {
 
 func vpStreamLen() int {
 	if vpTier() == 1 {
-		return vpInt("streamlen", 0, 13)
+		return vpInt("streamlen", 0, 12)
 	}
 	return vpInt("streamlen", 0, 10)
 }
@@ -215,7 +215,7 @@ func vpMaxReads() int {
 
 func vpFragStreamLen() int {
 	if vpTier() == 1 {
-		return vpInt("streamlen", 0, 10)
+		return vpInt("streamlen", 0, 9)
 	}
 	return vpInt("streamlen", 0, 7)
 }
@@ -227,7 +227,7 @@ func VP_C13_RequestFragmentIndependent() {
 	var whole Request
 	werr := whole.Decode(bytes.NewReader(s))
 	var fr Request
-	f := &vpFragReader{data: s, maxReads: vpMaxReads(), maxZeros: 1 + vpTier(), endErr: io.EOF}
+	f := &vpFragReader{data: s, maxReads: vpMaxReads(), maxZeros: 1, endErr: io.EOF}
 	ferr := fr.Decode(f)
 	vpAssert("same-verdict-under-fragmentation", (werr != nil) == (ferr != nil))
 	if werr == nil && ferr == nil {
